@@ -10,7 +10,7 @@ PARALLEL = True
 BATCH = 60
 BUDGET_S = {'quick': 90, 'thorough': 1500}
 RULE = ('single dense datasets (with/without features, curated or not, ids without spikes, unit factors 1 and '
-        '2.5, neighbourhood sizes smaller and larger than the probe, 1..2 probes in the probe table, distance '
+        '2.5, two conversions by one creator object with different unit factors (incl. 2.34375e-06 x 2^k), neighbourhood sizes smaller and larger than the probe, 1..2 probes in the probe table, distance '
         'ties) and datasets merged from 1..4 probes with permuted channel maps, each converted with the real '
         'EphysAlfCreator. non-trivial = every case; merged cases with >= 3 probes are forced first')
 ASSUMPTIONS = ['amplitude chain / durations / feature depths are the exact-arithmetic C09 model; float32 outputs compared '
@@ -20,7 +20,57 @@ ASSUMPTIONS = ['amplitude chain / durations / feature depths are the exact-arith
 
 
 def impl(case):
+    if case.get('twice'):
+        return _run_twice(case)
     return A.run_export(case)
+
+
+def _run_twice(case):
+    """ONE EphysAlfCreator object used for two conversions in a row with DIFFERENT unit factors
+    (`factor_first`, then `factor`): `arrays_first` / `arrays` hold the files of the first / second output
+    directory. Every amplitude-carrying file of the SECOND export must carry the second factor."""
+    from phylib.io.alf import EphysAlfCreator
+    from phylib.io.model import load_model
+    from . import dataset as D
+    with C.scratch_dir() as d:
+        src = d / 'src'
+        params = D.write_dataset(src, case['spec'])
+        load_model(params).close()       # creates spike_clusters.npy / whitening_mat_inv.npy when missing (C04)
+        m = load_model(params)
+        res = {}
+        outs = []
+        try:
+            chans_w_at_load = [[int(c) for c in m.get_template(t, unwhiten=False).channel_ids]
+                               for t in range(int(m.n_templates))]
+            if case.get('n_closest'):
+                m.n_closest_channels = case['n_closest']
+            res['src_model'] = dict(
+                spike_clusters=[int(x) for x in m.spike_clusters], spike_templates=[int(x) for x in m.spike_templates],
+                channel_mapping=[int(x) for x in m.channel_mapping], channel_positions=np.asarray(m.channel_positions).tolist(),
+                channel_probes=[int(x) for x in m.channel_probes], n_templates=int(m.n_templates), n_clusters=int(m.n_clusters),
+                n_channels=int(m.n_channels), nan_idx=[int(x) for x in np.asarray(m.nan_idx).ravel()],
+                clusters_channels=[int(x) for x in m.clusters_channels], templates_channels=[int(x) for x in m.templates_channels],
+                wmi=np.asarray(m.wmi, dtype=np.float64).tolist(),
+                templates=np.asarray(m.sparse_templates.data, dtype=np.float64).tolist(),
+                clusters_wfs=np.asarray(m.sparse_clusters.data, dtype=np.float64).tolist(),
+                amplitudes=[float(x) for x in m.amplitudes], has_features=m.sparse_features is not None,
+                sample_rate=float(m.sample_rate), n_closest=int(m.n_closest_channels), chans_w=chans_w_at_load)
+            if m.sparse_features is not None:
+                dep = m.get_depths()
+                res['src_model']['depths'] = None if dep is None else [None if np.isnan(x) else float(x) for x in dep]
+            creator = EphysAlfCreator(m)
+            for k, f in enumerate((case['factor_first'], case['factor'])):
+                out = d / ('alf%d' % k)
+                np.random.seed(case.get('rs', 0))
+                m2 = creator.convert(out, label=case.get('label', ''), ampfactor=f)
+                if m2 is not None:
+                    m2.close()
+                outs.append(out)
+        finally:
+            m.close()
+        res['arrays_first'] = {p.name: A._npy(p) for p in outs[0].iterdir() if p.suffix == '.npy'}
+        res['arrays'] = {p.name: A._npy(p) for p in outs[1].iterdir() if p.suffix == '.npy'}
+    return res
 
 
 def _arr(ok, stem, label):
@@ -41,18 +91,31 @@ def model_query(case, impl_res):
         qs.append(dict(p=PID, op='rawind_direct', cm=sm['channel_mapping'], probes=sm['channel_probes']))
     ncw = min(sm['n_closest'], sm['n_channels'])
     pos = DC.fracs(sm['channel_positions'])
-    tch = _arr(ok, 'templates.waveformsChannels', '')      # not labelled (np.save appends .npy after rename?) -> resolved in judge
     for fam, peaks in (('templates', sm['templates_channels']), ('clusters', sm['clusters_channels'])):
         rows = _find(ok, fam + '.waveformsChannels', label)
         qs.append(dict(p=PID, op='nearest', positions=pos, probes=sm['channel_probes'], peaks=peaks, ncw=ncw,
                        impl=rows['vals'] if rows else None))
+    if case.get('probes'):
+        # merged datasets: only the index bookkeeping and the geometry are judged (see judge)
+        return dict(p=PID, op='multi', qs=qs)
     amps = DC.fracs(sm['amplitudes'])
     wmi = DC.fracs(sm['wmi'])
-    qs.append(dict(p='C09', op='amps', wfs=DC.fracs(sm['templates']), wmi=wmi, amplitudes=amps, spikes=sm['spike_templates']))
-    qs.append(dict(p='C09', op='amps', wfs=DC.fracs(sm['clusters_wfs']), wmi=wmi, amplitudes=amps, spikes=sm['spike_clusters']))
-    qs.append(dict(p='C09', op='channels', wfs=DC.fracs(sm['clusters_wfs'])))
+    rows_t = _find(ok, 'templates.waveformsChannels', label)
+    rows_c = _find(ok, 'clusters.waveformsChannels', label)
+    # value side of the export in ONE model call: both get_amplitudes_true calls WITH the unit factor (exact rational)
+    # and the gather of the listed channels; nothing is multiplied or gathered on the Python side
+    qs.append(dict(p=PID, op='amp_files', templates=DC.fracs(sm['templates']), clusters_wfs=DC.fracs(sm['clusters_wfs']),
+                   wmi=wmi, amplitudes=amps, spike_templates=sm['spike_templates'], spike_clusters=sm['spike_clusters'],
+                   factor=DC.frac(case.get('factor', 1)),
+                   impl_inds_t=rows_t['vals'] if rows_t else [], impl_inds_c=rows_c['vals'] if rows_c else []))
+    # clusters.channels / clusters.peakToTrough (ms, NaN for ids without spikes); the sampling rate is the STORED one
+    rate = (case.get('spec') or {}).get('sample_rate', sm['sample_rate'])
+    qs.append(dict(p=PID, op='ptt', wfs=DC.fracs(sm['clusters_wfs']), rate=DC.frac(rate), nan_idx=sm['nan_idx']))
     qs.append(dict(p=PID, op='depths', ys=DC.fracs([p[1] for p in sm['channel_positions']]), peaks=sm['clusters_channels'],
                    nan_idx=sm['nan_idx'], spike_clusters=sm['spike_clusters']))
+    # peak channels of the TEMPLATES (they select the rows of templates.waveformsChannels and are not exported
+    # themselves): recomputed by the C09 model from the stored template waveforms
+    qs.append(dict(p='C09', op='channels', wfs=DC.fracs(sm['templates']), rate=DC.frac(rate)))
     spec = case.get('spec')
     if spec is not None:
         # cluster waveforms of the source model against the C08 model (curated datasets)
@@ -64,20 +127,60 @@ def model_query(case, impl_res):
         qs.append(dict(p='C09', op='depths', feat0=DC.fracs([[row for row in f[0]] for f in spec['pc_features']]),
                        cols=spec['pc_feature_ind'], ys=DC.fracs([p[1] for p in spec['channel_positions']]),
                        spike_templates=spec['spike_templates']))
+    if case.get('twice'):
+        r1t = _find(ok, 'templates.waveformsChannels', label, 'arrays_first')
+        r1c = _find(ok, 'clusters.waveformsChannels', label, 'arrays_first')
+        qs.append(dict(qs[3], factor=DC.frac(case['factor_first']),
+                       impl_inds_t=r1t['vals'] if r1t else [], impl_inds_c=r1c['vals'] if r1c else []))
     return dict(p=PID, op='multi', qs=qs)
 
 
-def _find(ok, stem, label):
+def _find(ok, stem, label, table='arrays'):
     for name in (stem + ('.%s' % label if label else '') + '.npy', stem + '.npy'):
-        if name in ok['arrays']:
-            return ok['arrays'][name]
+        if name in ok[table]:
+            return ok[table][name]
     return None
 
 
-def _close(a, b, tol):
+def _close(a, b, tol, scaled=False):
+    """`scaled`: the absolute part of the tolerance follows the magnitude of the expected values (unit factors
+    such as 2.34375e-06 make every amplitude tiny; an absolute 1e-6 would accept anything there)"""
     a = np.array([[np.nan if x is None else x for x in np.ravel(a)]], dtype=np.float64)
     b = np.array([[np.nan if x is None else x for x in np.ravel(b)]], dtype=np.float64)
-    return a.shape == b.shape and np.allclose(a, b, rtol=tol, atol=tol, equal_nan=True)
+    atol = tol
+    if scaled:
+        fin = np.abs(b[np.isfinite(b)])
+        atol = tol * (float(fin.max()) if fin.size and fin.max() > 0 else 1.)
+    return a.shape == b.shape and np.allclose(a, b, rtol=tol, atol=atol, equal_nan=True)
+
+
+def _judge_amp_files(ok, table, e, sm, label, tag):
+    """spikes.amps, templates/clusters .amps and .waveforms of one output directory against the files of the Lean
+    export model `e` (op amp_files: unit factor applied and listed channels gathered by the model)"""
+    for fam, n in (('templates', sm['n_templates']), ('clusters', sm['n_clusters'])):
+        wf = _find(ok, fam + '.waveforms', label, table)
+        amps = _find(ok, fam + '.amps', label, table)
+        exp_amps = [DC.to_float(x) for x in e[fam + '_amps']]
+        if amps is None or not _close(amps['vals'], exp_amps, 1e-9, scaled=True):
+            return 'SPEC: %s.amps %s differ from the mean scaled spike amplitude x factor %s%s' % (fam, amps and amps['vals'], exp_amps, tag)
+        if wf is None or wf['shape'][0] != n or len(e[fam + '_waveforms']) != n:
+            return 'SPEC: %s.waveforms has %s rows for %d ids%s' % (fam, wf and wf['shape'], n, tag)
+        for t in range(n):
+            R = e[fam + '_waveforms'][t]
+            if R is None:
+                # an id without spikes is exported as NaN on every listed channel (a flat waveform WITH spikes
+                # divides by zero: not spoken about)
+                if e[fam + '_amps'][t] is None and any(x is not None for x in np.ravel(np.array(wf['vals'][t], dtype=object))):
+                    return 'SPEC: %s.waveforms[%d] belongs to an id without spikes but is not NaN%s' % (fam, t, tag)
+                continue
+            exp = [[DC.to_float(x) for x in row] for row in R]
+            if not _close(wf['vals'][t], exp, 1e-6, scaled=True):
+                return 'SPEC: %s.waveforms[%d] is not the unwhitened, amplitude-rescaled waveform on its listed channels x factor%s' % (fam, t, tag)
+    sa = _find(ok, 'spikes.amps', label, table)
+    exp_sa = [DC.to_float(x) for x in e['spikes_amps']]
+    if sa is None or not _close(sa['vals'], exp_sa, 1e-6, scaled=True):
+        return 'SPEC: spikes.amps do not carry amplitude x template peak-to-peak x factor%s' % tag
+    return None
 
 
 def judge(case, impl_res, ans):
@@ -108,6 +211,8 @@ def judge(case, impl_res, ans):
             return 'MACHINERY: model channel rows rejected by their own spec'
         if res[i]['impl_spec'] is not True:
             return 'SPEC: %s.waveformsChannels are not the nearest same-probe channels, peak first' % fam
+        if res[i].get('impl_peak_first') is False:
+            return 'MACHINERY: rows accepted by nearestOK do not start with the peak channel (contradicts nearestOK_peak_first)'
     if case.get('probes'):
         # merged datasets carry large token values whose float32 template storage is not exact: only the
         # index bookkeeping (raw indices, listed channels) and the geometry are claimed on them
@@ -131,69 +236,66 @@ def judge(case, impl_res, ans):
             return 'SPEC: amplitudes / assignments of the source model differ from the stored arrays'
     # 2b. the cluster waveforms everything below is derived from (C08): count-weighted means of the
     # templates on the dominant template's channels when the dataset is curated
-    if len(res) > 7 and 'data' in res[7] and sm['spike_clusters'] != sm['spike_templates']:
-        exp_cw = [[[DC.to_float(x) for x in row] for row in M] for M in res[7]['data']]
+    I_AMP, I_PTT, I_DEP, I_TPK, I_C08, I_FD = 3, 4, 5, 6, 7, 8
+    curated = sm['spike_clusters'] != sm['spike_templates']
+    if len(res) > I_C08 and 'data' in res[I_C08] and curated:
+        exp_cw = [[[DC.to_float(x) for x in row] for row in M] for M in res[I_C08]['data']]
         if sm['clusters_wfs'] != exp_cw:
             return 'SPEC: cluster waveforms of the source are not the count-weighted template means on the dominant template\'s channels'
-    # 3. waveforms and amplitudes
-    for i, fam, n in ((3, 'templates', sm['n_templates']), (4, 'clusters', sm['n_clusters'])):
-        m = res[i]
-        wf = _find(ok, fam + '.waveforms', label)
-        chs = _find(ok, fam + '.waveformsChannels', label)
-        amps = _find(ok, fam + '.amps', label)
-        exp_amps = [None if x is None else DC.to_float(x) * f for x in m['amps_v']]
-        if amps is None or not _close(amps['vals'], exp_amps, 1e-9):
-            return 'SPEC: %s.amps %s differ from the mean scaled spike amplitude x factor %s' % (fam, amps and amps['vals'], exp_amps)
-        if wf is None or wf['shape'][0] != n:
-            return 'SPEC: %s.waveforms has %s rows for %d ids' % (fam, wf and wf['shape'], n)
-        for t in range(n):
-            R = m['rescaled'][t]
-            if R is None:
-                continue
-            Rf = np.array([[DC.to_float(x) for x in row] for row in R]) * f
-            exp = Rf[:, chs['vals'][t]]
-            if not _close(wf['vals'][t], exp.tolist(), 1e-6):
-                return 'SPEC: %s.waveforms[%d] is not the unwhitened, amplitude-rescaled waveform on its listed channels' % (fam, t)
-    sa = _find(ok, 'spikes.amps', label)
-    exp_sa = [DC.to_float(x) * f for x in res[3]['spike_amps']]
-    if sa is None or not _close(sa['vals'], exp_sa, 1e-6):
-        return 'SPEC: spikes.amps do not carry amplitude x template peak-to-peak x factor'
+    if sm['templates_channels'] != res[I_TPK]['peak']:
+        return 'SPEC: the peak channels %s that select the listed channels of the templates are not the peak channels of the stored templates %s' % (
+            sm['templates_channels'], res[I_TPK]['peak'])
+    # 3. waveforms and amplitudes: the files of the Lean export model (unit factor included)
+    bad = _judge_amp_files(ok, 'arrays', res[I_AMP], sm, label, '')
+    if bad:
+        return bad
+    if case.get('twice'):
+        # the same creator object had written a first export with another factor: that one carries the FIRST factor
+        # (and the second export, judged above and below with the same Lean computation, the SECOND)
+        bad = _judge_amp_files(ok, 'arrays_first', res[-1], sm, label, ' (first of two exports by one creator)')
+        if bad:
+            return bad
     # 4. durations, peak channels, depths
+    pm = res[I_PTT]
     cc = _find(ok, 'clusters.channels', label)
-    if cc is None or cc['vals'] != res[5]['peak']:
-        curated = sm['spike_clusters'] != sm['spike_templates']
-        if not curated:
-            return 'SPEC: clusters.channels %s are not the peak channels %s' % (cc and cc['vals'], res[5]['peak'])
     ptt = _find(ok, 'clusters.peakToTrough', label)
-    exp_d = [None if c in sm['nan_idx'] else float(x) / sm['sample_rate'] * 1e3 for c, x in enumerate(res[5]['durations'])]
-    if ptt is None or (not _close(ptt['vals'], exp_d, 1e-9) and sm['spike_clusters'] == sm['spike_templates']):
-        return 'SPEC: clusters.peakToTrough %s differ from peak-to-trough durations in ms %s' % (ptt and ptt['vals'], exp_d)
-    # curated clusters: the same two tables recomputed in floating point from the cluster waveforms the
-    # source model shows (weighted means; the exact-rational model is used for un-curated data only)
-    W = np.array(sm['clusters_wfs'], dtype=np.float64)
-    if W.size and cc is not None and ptt is not None:
-        pk = (W.max(axis=1) - W.min(axis=1)).argmax(axis=1)
-        if cc['vals'] != pk.tolist():
-            return 'SPEC: clusters.channels %s are not the peak channels of the cluster waveforms %s' % (cc['vals'], pk.tolist())
-        dur = (W.argmax(axis=1) - W.argmin(axis=1))[np.arange(len(W)), pk].astype(np.float64) / sm['sample_rate'] * 1e3
-        exp_d2 = [None if c in sm['nan_idx'] else float(x) for c, x in enumerate(dur)]
-        if not _close(ptt['vals'], exp_d2, 1e-9):
-            return 'SPEC: clusters.peakToTrough %s differ from the peak-to-trough durations of the cluster waveforms %s' % (ptt['vals'], exp_d2)
+    ncl = len(pm['peak'])
+    if cc is None or len(cc['vals']) != ncl:
+        return 'SPEC: clusters.channels %s missing or not one entry per cluster (%d)' % (cc and cc['vals'], ncl)
+    if ptt is None or len(ptt['vals']) != ncl:
+        return 'SPEC: clusters.peakToTrough %s missing or not one entry per cluster (%d)' % (ptt and ptt['vals'], ncl)
+    if not curated:
+        # exact-arithmetic domain (cluster waveforms = stored templates)
+        if cc['vals'] != pm['peak']:
+            return 'SPEC: clusters.channels %s are not the peak channels %s' % (cc['vals'], pm['peak'])
+        exp_d = [DC.to_float(x) for x in pm['ptt']]
+        if not _close(ptt['vals'], exp_d, 1e-9):
+            return 'SPEC: clusters.peakToTrough %s differ from peak-to-trough durations in ms %s' % (ptt['vals'], exp_d)
+    else:
+        # curated: cluster waveforms are floating-point weighted means. A channel whose exact peak-to-peak is within
+        # 2^-40 of the largest one is accepted as peak channel; the duration must be the one measured on the
+        # REPORTED channel (NaN for ids without spikes) - both tables come from the Lean executable
+        for c in range(ncl):
+            if cc['vals'][c] not in pm['near_peaks'][c]:
+                return 'SPEC: clusters.channels[%d] = %s is not a channel of largest peak-to-peak %s' % (c, cc['vals'][c], pm['near_peaks'][c])
+            if not _close([ptt['vals'][c]], [DC.to_float(pm['ptt_table'][c][cc['vals'][c]])], 1e-9):
+                return 'SPEC: clusters.peakToTrough[%d] = %s is not the peak-to-trough duration in ms on the peak channel %s' % (
+                    c, ptt['vals'][c], DC.to_float(pm['ptt_table'][c][cc['vals'][c]]))
     cd = _find(ok, 'clusters.depths', label)
-    exp_cd = [DC.to_float(x) for x in res[6]['cluster_depths']]
+    exp_cd = [DC.to_float(x) for x in res[I_DEP]['cluster_depths']]
     if cd is None or not _close(cd['vals'], exp_cd, 1e-12):
         return 'SPEC: clusters.depths %s are not the depths of the peak channels (NaN without spikes) %s' % (cd and cd['vals'], exp_cd)
     sd = _find(ok, 'spikes.depths', label)
     if not sm['has_features']:
-        exp_sd = [DC.to_float(x) for x in res[6]['spike_depths']]
+        exp_sd = [DC.to_float(x) for x in res[I_DEP]['spike_depths']]
         if sd is None or not _close(sd['vals'], exp_sd, 1e-6):
             return 'SPEC: spikes.depths (no features) are not the cluster depths'
     elif sd is None or sd['shape'] != [len(sm['spike_clusters'])]:
         return 'SPEC: spikes.depths shape'
     elif sm.get('depths') is not None and not _close(sd['vals'], sm['depths'], 1e-6):
         return 'SPEC: spikes.depths differ from the feature-weighted depths of the source model (C09)'
-    elif len(res) > 8 and 'model' in res[8]:
-        exp_fd = [DC.to_float(x) for x in res[8]['model']]
+    elif len(res) > I_FD and 'model' in res[I_FD]:
+        exp_fd = [DC.to_float(x) for x in res[I_FD]['model']]
         if not _close(sd['vals'], exp_fd, 1e-6):
             return 'SPEC: spikes.depths differ from the feature-weighted channel depths (NaN where no positive weight)'
     return None
@@ -214,7 +316,12 @@ def tally(rep, case, impl_res, ans):
         rep.count('single_dataset')
         rep.count('features:%s' % (case['spec'].get('pc_features') is not None))
     rep.count('factor:%s' % case.get('factor', 1))
+    if case.get('twice'):
+        rep.count('two_exports_by_one_creator')
     rep.count('label:%s' % bool(case.get('label')))
+    pr = (case.get('spec') or {}).get('channel_probes')
+    if pr and pr != sorted(pr):
+        rep.count('interleaved_probe_labels')
 
 
 def classify(case, impl_res, ans, why):
@@ -234,6 +341,12 @@ def gen(tier, rng):
     for ncs in ((4, 6, 5), (2, 3, 5, 2), (3, 3)):
         probes = [M.probe_spec(rng, k, nc=nc, nt=2 + k % 2, tdtype='uint64', idtype='uint32') for k, nc in enumerate(ncs)]
         yield dict(p=PID, probes=probes, factor=1)
+    # one creator object, two conversions in a row with different unit factors
+    pairs = [(1, 2.34375e-06), (2.5, 0.5), (1, 0.5), (2.34375e-06, 1), (1, 2.34375e-06 * 4), (0.5, 2.34375e-06 * 2 ** 10)]
+    for i in range(12 if q else 200):
+        spec = DC.dense_spec(rng, feats=(i % 2 == 0), empty=['none', 'last', 'middle'][i % 3], curated=(i % 4 < 2))
+        f1, f2 = pairs[i % len(pairs)]
+        yield dict(p=PID, spec=spec, twice=True, factor_first=f1, factor=f2, n_closest=rng.pick([2, 3, 12]), rs=i)
     for i in range(90 if q else 2000):
         if i % 3 == 0:
             # every other merged case uses channel maps with holes (dead channels): the raw-index inversion
@@ -247,6 +360,9 @@ def gen(tier, rng):
         else:
             spec = DC.dense_spec(rng, raw=(i % 4 == 1), feats=(i % 2 == 0), probes=(i % 5 == 0), empty=['none', 'last', 'middle'][i % 3],
                                  cmap=['random', 'identity'][i % 2])
+            if spec.get('channel_probes') and i % 10 == 5:
+                # probe labels that are neither 0-based nor sorted into blocks (interleaved shanks of two probes)
+                spec['channel_probes'] = [rng.pick([1, 3]) for _ in range(spec['n_channels'])]
             if i % 3 == 1:     # probe coordinates stored as integers
                 spec['dtypes'] = dict(spec.get('dtypes') or {}, channel_positions=['int32', 'uint32', 'int64', 'uint16'][(i // 3) % 4])
             yield dict(p=PID, spec=spec, factor=[1, 2.5][i % 2], label=['', 'probe00'][i % 7 == 0], n_closest=rng.pick([2, 3, 12]), reexport=(i % 4 == 1 and i % 7 != 0),
